@@ -159,16 +159,37 @@ def mk_order(template, lens, tokens=False):
     return SchemaOrder(template, lens, tokens)
 
 
-def k_prop_order(P, name, flip):
+PROP_SHAPES = {
+    "string": {"type": "string"},
+    "nullable_string": {"type": "string", "nullable": True},
+    "type_list_null": {"type": ["integer", "null"]},
+    "self_ref": None,  # filled with the schema's own name
+    "int_array": {"type": "array", "items": {"type": "integer"}},
+    "inline_enum": {"type": "string", "enum": ["low", "high"]},
+    "nullable_inline_enum": {"type": "string", "enum": ["on", "off"], "nullable": True},
+    "array_of_inline_objects": {"type": "array", "items": {"type": "object", "properties": {"k": {"type": "string"}}}},
+    "inline_object": {"type": "object", "properties": {"j": {"type": "integer"}}},
+    "nullable_inline_object": {"type": "object", "nullable": True, "properties": {"i": {"type": "integer"}}},
+    "inline_oneof": {"oneOf": [{"type": "string"}, {"type": "integer"}]},
+}
+PROP_KEYS = list(PROP_SHAPES)
+
+
+def k_prop_order(P, name, flip, shapes=("string", "self_ref", "int_array")):
     from importlib import import_module
 
     ext = import_module(P.__name__ + ".core.loader.schemas.extractor")
     inst = P.__name__.startswith("sxi_")
     D = hook.SDict if inst else dict
-    props = [("first", {"type": "string"}), ("second", {"$ref": "#/components/schemas/" + name}), ("third", {"type": "array", "items": {"type": "integer"}})]
+    import copy
+
+    props = []
+    for label, sh in zip(("first", "second", "third"), shapes):
+        node = {"$ref": "#/components/schemas/" + name} if sh == "self_ref" else copy.deepcopy(PROP_SHAPES[sh])
+        props.append((label, node))
     if flip:
         props.reverse()
-    node = D(type="object", required=["first"])
+    node = D(type="object", required=["first", "second"])
     pd = D()
     for k, v in props:
         pd[k] = hook.to_sx(v) if inst else v
@@ -181,25 +202,33 @@ def k_prop_order(P, name, flip):
     best = max(hits, key=lambda v: len(v.properties or {})) if hits else None
     if best is None:
         return None
-    return (len(hits), sorted((k, c02._kind(v, [name], [san])) for k, v in best.properties.items()), sorted(best.required or []))
+    return (len(hits), sorted((k, c02._kind(v, [name], [san]), bool(v.is_nullable)) for k, v in best.properties.items()), sorted(best.required or []))
 
 
 class PropertyOrder(Obligation):
     functions = ["pyopenapi_gen.core.parsing.schema_parser:_parse_properties", "pyopenapi_gen.core.parsing.schema_parser:_parse_schema"]
     alphabet = c02.NAME_ALPHA
 
-    def __init__(self, n):
-        self.n = n
-        self.name = "property_order/len=%d" % n
-        self.bounds = {"schema_name_length": n, "alphabet": c02.NAME_ALPHA_TXT, "properties": "string, self reference, array of integer, in both orders"}
+    def __init__(self, n, pairs=False):
+        self.n, self.pairs = n, pairs
+        self.name = "property_order/len=%d%s" % (n, "/pairs" if pairs else "")
+        self.bounds = {"schema_name_length": n, "alphabet": c02.NAME_ALPHA_TXT,
+                       "properties": ("every ordered pair of %r followed by a string, in both orders" % (PROP_KEYS,)) if pairs else "string, self reference, array of integer, in both orders",
+                       "compared": "kind and nullability of every property, required list"}
 
     def make_inputs(self, e):
         from symx.core import mk_sym_str
 
-        return {"name": mk_sym_str(self.n, "n", c02.NAME_ALPHA)}
+        inp = {"name": mk_sym_str(self.n, "n", c02.NAME_ALPHA)}
+        if self.pairs:
+            a = e.choose(len(PROP_KEYS), "p0")
+            b = e.choose(len(PROP_KEYS) - 1, "p1")
+            inp["shapes"] = [PROP_KEYS[a], [k for k in PROP_KEYS if k != PROP_KEYS[a]][b], "string"]
+        return inp
 
     def _run(self, P, inp):
-        return (call_catching(k_prop_order, P, inp["name"], False), call_catching(k_prop_order, P, inp["name"], True))
+        shapes = tuple(inp.get("shapes") or ("string", "self_ref", "int_array"))
+        return (call_catching(k_prop_order, P, inp["name"], False, shapes), call_catching(k_prop_order, P, inp["name"], True, shapes))
 
     def run_sym(self, inp):
         return self._run(c02._I(), inp)
@@ -211,14 +240,22 @@ class PropertyOrder(Obligation):
         a, b = r
         if isinstance(a, Raised) or isinstance(b, Raised):
             return isinstance(a, Raised) and isinstance(b, Raised)
-        return a == b
+        if a != b:
+            return False
+        # and what each order says about nullability is what the document says
+        if a is not None and inp.get("shapes"):
+            want = {lab: ("nullable" in sh or sh == "type_list_null") for lab, sh in zip(("first", "second", "third"), inp["shapes"])}
+            for k, _kind, nul in a[1]:
+                if str(k) in want and nul != want[str(k)]:
+                    return False
+        return True
 
     def describe_violation(self, inp, r):
-        return "schema %r: declared order -> %r, reversed -> %r" % (inp["name"], r[0], r[1])
+        return "schema %r, properties %r: declared order -> %r, reversed -> %r" % (inp["name"], inp.get("shapes"), r[0], r[1])
 
 
-def mk_prop_order(n):
-    return PropertyOrder(n)
+def mk_prop_order(n, pairs=False):
+    return PropertyOrder(n, pairs)
 
 
 def k_primary(P, codes):
@@ -530,6 +567,9 @@ def specs(tier):
         out.append((MOD, "mk_path_bodies", ("request", (1, 1, 1))))
     for n in ((1, 2) if q else (1, 2, 3)):
         out.append((MOD, "mk_prop_order", (n,)))
+    out.append((MOD, "mk_prop_order", (1, True)))
+    if not q:
+        out.append((MOD, "mk_prop_order", (2, True)))
     for t, (n, _, _, _) in c02.TEMPLATES.items():
         if q and n == 3 and t != "ring3":
             continue  # six permutations of three schemas per path: thorough tier
@@ -570,7 +610,7 @@ def replay(path):
     elif parts[0] == "response_key_order":
         ob = ResponseOrder(int(parts[1].split("=")[1]))
     elif parts[0] == "property_order":
-        ob = PropertyOrder(len(v["inputs"]["name"]))
+        ob = PropertyOrder(len(v["inputs"]["name"]), parts[-1] == "pairs")
     else:
         ob = SchemaOrder(parts[1], [1] * c02.TEMPLATES[parts[1]][0])
     r = ob.run_real(v["inputs"])
